@@ -233,7 +233,8 @@ std::string sanitizer_class_of(const std::string &errpath, const char *fallback,
     size_t q = 0;
     while ((q = txt.find(" in ", q)) != std::string::npos) {
         size_t e = txt.find(' ', q + 4);
-        if (e != std::string::npos && txt.compare(e + 1, 10, "/repo/src/") == 0) { func = txt.substr(q + 4, e - q - 4); break; }
+        static const std::string src_prefix = std::string(getenv("VERIF_REPO") ? getenv("VERIF_REPO") : "/repo") + "/src/";
+        if (e != std::string::npos && txt.compare(e + 1, src_prefix.size(), src_prefix) == 0) { func = txt.substr(q + 4, e - q - 4); break; }
         q += 4;
     }
     if (summary && func != "?") *summary += " @ " + func;
